@@ -5,6 +5,7 @@ from __future__ import annotations
 
 import datetime
 import inspect
+import os
 
 import z3
 
@@ -76,7 +77,7 @@ class RuleSummaries:
 def where_of(func):
     f0 = inspect.unwrap(func)
     try:
-        return f"{inspect.getsourcefile(f0).replace('/repo/', '')}:{f0.__code__.co_firstlineno}"
+        return f"{inspect.getsourcefile(f0).replace(os.environ.get('VERIF_REPO', '/repo') + '/', '')}:{f0.__code__.co_firstlineno}"
     except Exception:  # noqa: BLE001
         return "?"
 
